@@ -1,12 +1,52 @@
 (** C04 - Bin-completion uses the minimum possible number of bins.
-    PROVED for all inputs (model of the repaired code): the result is a feasible packing of the non-zero items with no empty bin,
-    so it never has FEWER bins than the optimum (bc_ge_opt); it never has more bins than best-fit-decreasing (bc_le_bfd); when
-    its count equals the volume bound ceil(total/C) it IS optimal (bc_exit_at_lb_optimal), which covers both early exits of the
-    code (bc_bfd_exit); the sums-only run makes the same decisions (bc_erase: same count for every output type).
-    NOT proved: optimality in general (PARTIAL).  It rests on Korf's dominance argument AND on the completeness of this code's
-    completion generator; it is tested against the verified oracle min_bins (proved to be the optimum) on every generated input.
-    Statements only; proofs in Proofs/BCProofs.v and Proofs/OracleSpec.v. *)
-From Prtpy Require Import Base.Prelude Model.Binner Model.Packing Model.BinCompletion Spec.Partition Oracle.Reach Proofs.BCProofs Proofs.OracleSpec Model.BinCompletionTrace Proofs.BCTraceProofs.
+    PROVED IN FULL for the model of the repaired code (Proofs/BCOptimalProofs.v): bin completion returns a packing of the non-zero
+    items with the MINIMUM number of bins any feasible packing can have (bc_optimal), by Korf's argument made precise for THIS
+    generator: the dominance test is sound (is_dominant_sound, an exchange argument), every feasible completion of the bin of the
+    largest item - of any size - is dominated by one of the completions returned (find_bin_completions_complete), and a branch is
+    discarded only when it cannot beat the incumbent.  Hence never more bins than FFD or BFD (they are feasible packings:
+    bc_le_any_packing); same decisions under the sums-only manager (bc_erase: same count for every output type).
+    The theorem speaks about runs that return Ok (the model's fuel is 200 000 search steps in the harness).
+    Statements only; proofs in Proofs/BCProofs.v, Proofs/BCOptimalProofs.v, Proofs/BCTraceProofs.v, Proofs/OracleSpec.v. *)
+From Prtpy Require Import Base.Prelude Model.Binner Model.Packing Model.BinCompletion Spec.Partition Oracle.Reach Proofs.BCProofs Proofs.OracleSpec Model.BinCompletionTrace Proofs.BCTraceProofs Proofs.BCOptimalProofs.
+
+(** THE PROPERTY: the number of bins is the minimum over all feasible packings *)
+Theorem C04_bc_optimal :
+  forall (C : Z) (fuel : nat) (items : list Z) (b : zbins),
+  0 < C ->
+  Forall (fun v : Z => 0 <= v <= C) items ->
+  bin_completion true C fuel items = Ok b -> MinBins C (filter nonzero items) (length b).
+Proof. exact bc_optimal_bounded. Qed.
+Print Assumptions C04_bc_optimal.
+
+(** never more bins than ANY feasible packing (in particular FFD's and BFD's) *)
+Theorem C04_bc_le_any_packing :
+  forall (C : Z) (fuel : nat) (items : list Z) (b : zbins) (m : nat),
+  0 < C ->
+  Forall (fun v : Z => 0 <= v) items ->
+  bin_completion true C fuel items = Ok b ->
+  Packable C (filter nonzero items) m -> (length b <= m)%nat.
+Proof. exact bc_le_any_packing. Qed.
+Print Assumptions C04_bc_le_any_packing.
+
+(** completeness of the completion generator relative to dominance *)
+Theorem C04_find_bin_completions_complete :
+  forall (C x : Z) (items B : list Z),
+  Forall (fun v : Z => 0 < v) items ->
+  sub_multiset B items = true ->
+  x + zsum B <= C ->
+  find_bin_completions x items C = [] /\ B = [] \/
+  (exists A : list Z, In A (find_bin_completions x items C) /\ Better C items A B).
+Proof. exact find_bin_completions_complete. Qed.
+Print Assumptions C04_find_bin_completions_complete.
+
+(** soundness of the dominance test (exchange argument) *)
+Theorem C04_is_dominant_sound :
+  forall (C : Z) (M A B : list Z),
+  Forall (fun v : Z => 0 < v) M ->
+  sub_multiset A M = true ->
+  sub_multiset B M = true -> is_dominant A B = true -> Better C M A B.
+Proof. exact is_dominant_sound. Qed.
+Print Assumptions C04_is_dominant_sound.
 
 Theorem C04_bc_packing :
   forall (C : Z) (fuel : nat) (items : list Z) (b : zbins),
@@ -33,17 +73,6 @@ Theorem C04_bc_le_bfd :
   (length b <= length bfd)%nat.
 Proof. exact bc_le_bfd. Qed.
 Print Assumptions C04_bc_le_bfd.
-
-(** PARTIAL optimality: optimal whenever the count equals the volume lower bound *)
-Theorem C04_bc_exit_at_lb_optimal_partial :
-  forall (C : Z) (fuel : nat) (items : list Z) (b : zbins),
-  0 < C ->
-  Forall (fun v : Z => 0 <= v) items ->
-  bin_completion true C fuel items = Ok b ->
-  length b = Z.to_nat (cdiv (zsum (filter nonzero items)) C) ->
-  MinBins C (filter nonzero items) (length b).
-Proof. exact bc_exit_at_lb_optimal. Qed.
-Print Assumptions C04_bc_exit_at_lb_optimal_partial.
 
 (** the early exit returns BFD's packing exactly when BFD meets the volume bound *)
 Theorem C04_bc_bfd_exit :
